@@ -214,6 +214,12 @@ def build_model_runner(prop, extract_rel, driver, cone_files, timeout=600):
         return True, exe
     shutil.rmtree(d, ignore_errors=True)
     os.makedirs(d)
+    # the extraction script may require files outside the cone of the property's Props file (shared runners)
+    deps = [f[:-2] + ".vo" for f in cone_files if f != extract_rel and f.endswith(".v")]
+    if deps:
+        rc, out = coq_make(deps, max(timeout, 2400))
+        if rc != 0:
+            return False, "the files the extraction script requires do not compile:\n" + out[-2000:]
     rc, out = sh(["coqc", "-q", "-Q", COQ, "QV", "-w", "-notation-overridden,-extraction",
                   os.path.join(COQ, extract_rel)], cwd=d, timeout=timeout)
     if rc != 0:
